@@ -1,6 +1,6 @@
 # C16 — limit, offset and ordering slice and sort results without failing
 import vlib
-from checks.db_common import run_db
+from checks.db_common import run_db, add_big, spec_level
 
 META = dict(
     engine="coq+hx_core",
@@ -35,7 +35,9 @@ COMMON = ("panic", "read-error")
 def run(ctx):
     n, steps = (150, 30) if ctx.tier == "quick" else (4000, 60)
     r = run_db(ctx, PROFILE, n, steps, seed_off=16)
+    r = add_big(ctx, r, 60 if ctx.tier == "quick" else 1500)
     failures = [f for f in r["failures"] if f["cls"].startswith(CLASSES) or f["cls"] in COMMON]
+    failures += [f for f in spec_level(r) if f["cls"] == "model-mismatch"]
     return dict(
         evaluations=r["cases"], distinct_nontrivial=r["nontrivial"], samples=r["samples"], dist=r["dist"],
         rule="%d generated query histories (profile %s, <= %d steps: graphs with properties, then searches BFS/DFS/reverse/path/elements with "
